@@ -78,6 +78,14 @@ CHECKS = {
             "chunk/annulus/sphere layouts (checked by parsing and by the Depth/radius relation). Tie: connectivity of the binary's "
             "VTU vs the extracted model; node values vs the library through wbprobe at the recomputed positions.",
             "proof (lia/nia index theorems) + binary-vs-model connectivity correspondence + node-value oracle", "4 C18"),
+    "C15": ("Theorems (Properties_C15.v): [S, axiom-free] every random grains block consumes exactly 3k (+k for random sizes) draws "
+            "and every random composition one draw, blocks keep their announced length, equal worlds and equal histories give "
+            "equal tape positions and answers; [R] the Arvo matrix (deflection included) satisfies M M^T = I and det M = +1 for "
+            "all draws (nsatz), normalised sizes sum to one, a + u(b-a) lies in [a,b]. Not modelled: std::mt19937 / "
+            "uniform_real_distribution (the tape of draws for a seed is produced by the harness with the same engine). Tie: the "
+            "model fed that tape reproduces every answer of long query sequences bit for bit; oracle: twin/other-seed worlds, "
+            "orthonormality, sums, bounds.",
+            "proof (draw bookkeeping by induction, Arvo by nsatz over Reals) + bit-exact correspondence on the mt19937 tape + twin-world oracle", "4 C15"),
 }
 
 NOT_YET = {
